@@ -92,11 +92,13 @@ def run(ctx):
     traces, info = [], {}
     m = LiveManager(2)
     try:
-        for h in chosen:
+        for hi, h in enumerate(chosen):
             evs, sent = [], []
-            for c in h:
+            for ci, c in enumerate(h):
                 line = lines.CLASSES[c](random.Random("c03:%s:%d" % (c, ctx.seed)))
-                ev, data = m.request(line)
+                # how the bytes reach the manager is the client's choice too (one write, small pieces, no
+                # terminator before the end of the stream, write side left open, a second line behind)
+                ev, data = m.request(line, delivery=LiveManager.DELIVERIES[(hi + ci) % 5] if hi % 2 else "whole")
                 ev["cls"] = c
                 evs.append(ev)
                 sent.append(c)
